@@ -73,4 +73,16 @@ def monC17n (c : MonCtx) : Mon C17nSt where
       let st := if failsActor c.cfg.failOnTimeout l then { st with failure := true } else st
       if l.terminates then some { st with terminated := true } else some st
 
+/-- well-formedness: `consume(self)` is the last thing done with the owning address -/
+def monC17nwf : Mon Bool where
+  init := false
+  step consumed l :=
+    match l with
+    | .begin _ _ .consume => if consumed then none else some true
+    | .begin _ _ .join => if consumed then none else some false
+    | _ => some consumed
+
+/-- no join / consume begins after a consume began -/
+def consumeLast (ls : List Label) : Bool := monC17nwf.ok ls
+
 end Hannibal
